@@ -4,6 +4,7 @@ import (
 	"context"
 	"errors"
 	"fmt"
+	"github.com/tsuna/gohbase"
 	"io"
 	"strings"
 	"time"
@@ -284,8 +285,122 @@ func c13QueueUnit(how string) *explore.Unit {
 	return u
 }
 
-func c13Units(thorough bool) []*explore.Unit {
+// c13WireFaultUnits (tier W): two callers with their own contexts send directly over one
+// real region client (two regions on one server, queue size 1); the server never answers
+// them; the k-th operation on that connection fails, for every k of the window in which
+// the requests are sent; later both contexts are cancelled. Whatever the failing
+// connection left behind inside the region client (locks, counters, queues), both calls
+// must return promptly after the cancellation.
+func c13WireFaultUnits(thorough bool) []*explore.Unit {
 	var units []*explore.Unit
+	maxK := 14
+	if thorough {
+		maxK = 24
+	}
+	for k := 0; k <= maxK; k++ {
+		for _, entries := range [][2]string{{"get", "get"}, {"get", "scan"}, {"put", "scan"}} {
+			k, entries := k, entries
+			var returned [2]bool
+			var errs [2]error
+			var cancelAt time.Duration
+			var retAt [2]time.Duration
+			var faulted []string
+			// one deviation lets the second caller write before the first one's failure
+			b := 1
+			if thorough {
+				b = 2
+			}
+			u := &explore.Unit{Name: fmt.Sprintf("wire|%s+%s held in flight|connection op +%d fails|cancel", entries[0], entries[1], k), Bound: b, Opt: vrt.Options{MaxSteps: 80000}}
+			u.Body = func() {
+				returned, errs, retAt, cancelAt, faulted = [2]bool{}, [2]error{}, [2]time.Duration{}, -1, nil
+				cl := sim.NewCluster("rs0:1")
+				cl.AddTable("t", []string{"m"}, []string{"rs1:1"})
+				w := newWorldW(cl, gohbase.FlushInterval(0), gohbase.RpcQueueSize(1))
+				for _, key := range []string{"a", "x"} {
+					g, _ := hrpc.NewGetStr(context.Background(), "t", key)
+					if _, err := w.client.Get(g); err != nil {
+						panic("warm-up failed: " + err.Error())
+					}
+				}
+				cl.Hold["a"], cl.Hold["x"], cl.Hold[""] = true, true, true
+				var target *sim.Conn
+				for _, wc := range cl.WConns {
+					if wc.Addr == "rs1:1" && !wc.Conn.Closed {
+						target = wc.Conn
+					}
+				}
+				if target != nil && k > 0 {
+					target.Faults = append(target.Faults, sim.Fault{At: target.Ops + k})
+				}
+				ctx, cancel := context.WithCancel(context.Background())
+				fin := make(chan int, 2)
+				for i, key := range []string{"a", "x"} {
+					i, key := i, key
+					vrt.GoNamed(fmt.Sprintf("h:req%d", i), func() {
+						switch entries[i] {
+						case "get":
+							g, _ := hrpc.NewGetStr(ctx, "t", key)
+							_, errs[i] = w.client.Get(g)
+						case "put":
+							pt, _ := hrpc.NewPutStr(ctx, "t", key, map[string]map[string][]byte{"f": {"q": []byte("v")}})
+							_, errs[i] = w.client.Put(pt)
+						case "scan":
+							sc, _ := hrpc.NewScanRangeStr(ctx, "t", key, key+"z")
+							_, errs[i] = w.client.Scan(sc).Next()
+						}
+						returned[i] = true
+						retAt[i] = w.now()
+						vrt.Send(fin, i)
+					})
+				}
+				vrt.GoNamed("h:canceller", func() {
+					vrt.Sleep(100 * time.Second)
+					cancelAt = w.now()
+					cancel()
+				})
+				vrt.Recv(fin)
+				vrt.Recv(fin)
+				if target != nil {
+					faulted = target.Faulted
+				}
+				cl.Hold = map[string]bool{}
+				cl.ReleaseResponses()
+				vrt.Sleep(time.Minute)
+				w.client.Close()
+				vrt.Sleep(10 * time.Minute)
+				for _, c := range cl.WConns {
+					c.Server.Stop = true
+				}
+			}
+			u.Check = func(res *vrt.Result) *explore.Finding {
+				if f := baseFinding(res); f != nil {
+					return f
+				}
+				for i := range returned {
+					if res.Deadlock || !returned[i] {
+						return &explore.Finding{Class: "call-blocked-after-cancellation: " + entries[i] + " over a connection that failed while it was being sent",
+							Msg: fmt.Sprintf("call %d still blocked at quiescence (cancelled at %v, faulted ops %v): %v", i, cancelAt, faulted, res.Blocked)}
+					}
+					if cancelAt >= 0 && retAt[i] > cancelAt+time.Second {
+						return &explore.Finding{Class: "cancellation-honoured-late: " + entries[i] + " over a failed connection", Msg: fmt.Sprintf("returned %v after the context ended", retAt[i]-cancelAt)}
+					}
+					if e := errs[i]; e != nil && !isCtxErr(e) && !(entries[i] == "scan" && e == io.EOF) {
+						return &explore.Finding{Class: "cancelled-call-returns-non-context-error", Msg: fmt.Sprintf("call %d: %v (%T); faulted ops %v", i, e, e, faulted)}
+					}
+				}
+				if cb := clientBlocked(res); len(cb) > 0 {
+					return &explore.Finding{Class: "client-thread-left-blocked", Msg: fmt.Sprintf("%v", cb)}
+				}
+				return nil
+			}
+			units = append(units, u)
+		}
+	}
+	return units
+}
+
+func c13Units(thorough bool) []*explore.Unit {
+	units := c13WireFaultUnits(thorough)
 	states := []string{"zk-silent", "meta-silent", "probe-silent", "backoff", "server-silent", "reestablish", "lookup-backoff"}
 	entries := []string{"get", "put", "batch-shared", "batch-own", "scan"}
 	afters := []time.Duration{0, 20 * time.Millisecond, 3 * time.Second, 100 * time.Second}
